@@ -180,7 +180,31 @@ def chk_mp_bc(c):
     pk = [kvs] * len(offs)
     if c.get('hetero'):
         pk = [(bspline.make_knots(c['p'], 0.0, 1.0, c['n'][0] + b), bspline.make_knots(c['p'], 0.0, 1.0, c['n'][1] + 2 * a)) for (a, b) in offs]
-    MP = assemble.Multipatch([(k_, g) for k_, g in zip(pk, geos)], automatch=True)
+    if c.get('manual') is None:
+        MP = assemble.Multipatch([(k_, g) for k_, g in zip(pk, geos)], automatch=True)
+    else:
+        # the interfaces joined by hand, in an arbitrary order (joins that merge already shared dofs at a cross point included)
+        MP = assemble.Multipatch([(k_, g) for k_, g in zip(pk, geos)])
+        ifaces = []
+        for p_, (a, b) in enumerate(offs):
+            for q_, (a2, b2) in enumerate(offs):
+                if (a2, b2) == (a + 1, b):
+                    ifaces.append((p_, 'right', q_, 'left'))
+                elif (a2, b2) == (a, b + 1):
+                    ifaces.append((p_, 'top', q_, 'bottom'))
+        order_ = list(np.random.RandomState(c['manual']).permutation(len(ifaces)))
+        if c['manual'] % 2 == 1 and len(ifaces) == 4:
+            # two interfaces without a common patch first: the third join then merges two classes of already shared dofs (cross point)
+            first = order_[0]
+            opp = [k_ for k_ in order_[1:] if not ({ifaces[k_][0], ifaces[k_][2]} & {ifaces[first][0], ifaces[first][2]})]
+            order_ = [first] + opp + [k_ for k_ in order_[1:] if k_ not in opp]
+        for k_ in order_:
+            p_, f1, q_, f2 = ifaces[k_]
+            if (k_ + c['manual']) % 2:
+                MP.join_boundaries(q_, f2, p_, f1)
+            else:
+                MP.join_boundaries(p_, f1, q_, f2)
+        MP.finalize()
     # the glued space has one dof per distinct dof position of the conforming patches
     allpts = set()
     for p, (a, b) in enumerate(offs):
@@ -188,6 +212,11 @@ def chk_mp_bc(c):
             for x in pk[p][1].greville():
                 allpts.add((round(float(x) + a, 9), round(float(y) + b, 9)))
     assert MP.numdofs == len(allpts), 'the glued space has %d dofs, the patches have %d distinct dof positions' % (MP.numdofs, len(allpts))
+    used = set()
+    for p in range(len(offs)):
+        used |= set(int(g) for g in np.asarray(MP.patch_to_global_idx(p)).ravel())
+    assert used == set(range(MP.numdofs)), 'glued numbering is not gap-free: %d global dofs, local dofs map onto %d numbers in [%d, %d]' % (
+        MP.numdofs, len(used), min(used), max(used))
     lin = lambda x, y: 1.0 + x + 2.0 * y
     conds = [(p, face) for p in range(len(geos)) for face in ('left', 'right', 'bottom', 'top')]
     # keep only faces on the outer boundary of the union (an interface face is not a Dirichlet face)
@@ -284,6 +313,8 @@ def generate(tier, rng):
     import itertools as _it
     for k, perm in enumerate(list(_it.permutations(range(3))) + list(_it.permutations(range(4)))[::3]):
         yield 'mp_bc', {'seed': k, 'p': 1 + k % 3, 'n': [3 + k % 2, 4], 'shape': 'L' if len(perm) == 3 else 'square', 'ncond': 8, 'hetero': bool(k % 3), 'perm': list(perm)}
+        for ms in ((k // 2,) if len(perm) == 3 else (0, 1, 2, 3, 5)) if k % 2 == 0 else ():
+            yield 'mp_bc', {'seed': k, 'p': 1 + k % 3, 'n': [3 + k % 2, 4], 'shape': 'L' if len(perm) == 3 else 'square', 'ncond': 8, 'hetero': bool(k % 3), 'perm': list(perm), 'manual': ms}
     seed = 0
     for n in range(1, 5 if quick else 6):
         for r in range(0, n + 1):
